@@ -5,6 +5,11 @@ HERE = os.path.dirname(os.path.dirname(os.path.abspath(__file__)))
 
 CLAIMED = {
  # id: (level, technique, text, note, design_ref)
+ "C05": ("exploration",
+         "deterministic simulation along three fault seams: entropy tapes fed to generate() (seeded, adversarial, and engineered by recording one run and substituting the read that produced q), storage faults on exported key files, single-component memory faults before construct(); independent invariant checker",
+         "Narrow claim. Seeded search along three routes only: (a) generate() for RSA (1024/1025/1536 bits, several exponents), DSA on a fixed domain, ECC on nine curves (ElGamal in the thorough tier) under seeded, all-zero, all-0xFF and periodic tapes, tapes that put order-1 / order first, and an RSA tape engineered by recording the reads of one run and replacing the read that produced the second prime with a prime at a chosen distance from the first (FIPS 186-4 |p-q| margin); results must also be a function of the tape alone; (b) 24 damaged copies (bit flips, overwrites, double flips, torn writes) of one exported key file per case through import_key; (c) 16 damaged component tuples per case through construct(consistency_check=True). Every key handed out is checked by an independent checker on Python ints (primality by 40-base Miller-Rabin, subgroup relations, curve equations on all nine curves, RFC 8032/7748 derivations). Sampling, not proof.",
+         "Not claimed: the input-space part of the property (deny-list of low-order Montgomery points, every malformed tuple, every encoding). For public-only RSA keys only 1 < e < n and n odd are checked.",
+         "DESIGN.md section 4 (C05)"),
  "C13": ("fault_enumeration",
          "deterministic simulation of storage faults: the single-fault catalogue (truncation at every offset, bit flips, overwrites, extensions, insert/delete/duplicate, DER length re-encodings, trailing bytes inside wrappers, torn writes, garbage, text damage) is enumerated over a fixed corpus of encodings and key files; seeded sequences of 2-3 faults on top",
          "For every item of a fixed corpus (DER INTEGER/BOOLEAN/OCTET/BIT STRING/NULL/OID/SEQUENCE/SET OF with implicit and explicit tags, PEM clear and legacy-encrypted, PKCS#8 clear and under six PBES2/scrypt schemes, three padding styles over block sizes 1-255, RFC 1751, integer conversion, RSA/DSA/ECC keys in every export format) every single storage fault of the catalogue is applied and the result decoded: only the documented exception may escape (keyed by raising site), DER decoders and DER key files must refuse every proper prefix, trailing bytes (also inside explicit/OCTET STRING wrappers), and long-form / zero-padded / indefinite re-encodings of every header they parse, unpad must accept exactly what an independent definition accepts, and decode(encode(v)) == v on the undamaged corpus. Exhaustive over (corpus x single-fault catalogue) in the thorough tier; the quick tier covers all non-key items and a rotating third of each key file's faults, plus 4000 cases of 40 seeded multi-fault sequences.",
